@@ -114,9 +114,96 @@ func inscribedShape(r *vproto.Rng, kind string, w, h int64) S {
 	return S{Kind: "MPG", Polys: []shapes.Poly{shapes.AddHoles(r, shapes.Inscribed(r, w, h), r.Intn(2))}}
 }
 
-var classCycle = []int{0, 1, 2, 3, 4, 5, 0, 1, 2, 3, 4, 0}
+var classCycle = []int{0, 1, 2, 3, 4, 5, 0, 1, 2, 3, 4, 6}
+
+// genVertsInside (configuration class 6): every vertex of one operand (the guest) lies strictly in
+// the solid part of the other (the host), yet the guest is NOT a subset of the host: it surrounds a
+// hole of the host without touching it, or its edges bridge a notch of a concave host. A test that
+// looks at vertices only ("all vertices inside => nested") is wrong exactly here. The host is on even
+// coordinates, the guest on odd ones (general position is re-checked anyway).
+func genVertsInside(r *vproto.Rng, ka, kb string) (S, S, bool) {
+	if ka == "B" && kb == "B" {
+		return S{}, S{}, false
+	}
+	hostIsA := kb == "B" || (ka != "B" && r.Intn(4) != 0)
+	hk, gk := ka, kb
+	if !hostIsA {
+		hk, gk = kb, ka
+	}
+	odd := func(lo, hi int64) int64 { // an odd number in [lo, hi] (lo when there is none)
+		if hi < lo {
+			return lo | 1
+		}
+		return int64(r.Range(int(lo), int(hi))) | 1
+	}
+	for try := 0; try < 20; try++ {
+		var hp shapes.Poly
+		switch r.Intn(3) {
+		case 0:
+			hp = shapes.Poly{shapes.Ortho(r, r.Range(3, 5), 6, 1)}
+		case 1:
+			hp = shapes.AddHoles(r, shapes.Shell(r, true), r.Range(1, 2))
+			if len(hp) < 2 {
+				continue
+			}
+		default:
+			hp = shapes.AddHoles(r, shapes.Star(r, r.Range(6, 10), float64(r.Range(6, 12))), r.Intn(2))
+		}
+		host := S{Kind: hk, Polys: []shapes.Poly{hp}}.Scale(2, 0, 0)
+		mn, mx := bboxOf(host)
+		for t := 0; t < 150; t++ {
+			x0 := odd(mn.X, mx.X-3)
+			x1 := odd(x0+2, mx.X-1)
+			y0 := odd(mn.Y, mx.Y-3)
+			y1 := odd(y0+2, mx.Y-1)
+			if len(host.Polys[0]) > 1 && t%2 == 0 {
+				// directed: a frame around one hole of the host
+				h := host.Polys[0][1+r.Intn(len(host.Polys[0])-1)]
+				hs := S{Kind: "PG", Polys: []shapes.Poly{{h}}}
+				hmn, hmx := bboxOf(hs)
+				x0, y0 = hmn.X-int64(2*r.Range(0, 2)+1), hmn.Y-int64(2*r.Range(0, 2)+1)
+				x1, y1 = hmx.X+int64(2*r.Range(0, 2)+1), hmx.Y+int64(2*r.Range(0, 2)+1)
+			}
+			if x1 <= x0 || y1 <= y0 {
+				continue
+			}
+			var guest S
+			if gk == "B" {
+				guest = S{Kind: "B", Box: [2]shapes.Pt{{X: x0, Y: y0}, {X: x1, Y: y1}}}
+			} else {
+				ring := shapes.RectRing(x0, y0, x1, y1)
+				if r.Intn(3) == 0 && x1-x0 >= 6 && y1-y0 >= 6 {
+					in := S{Kind: "PG", Polys: []shapes.Poly{{shapes.Inscribed(r, (x1-x0)/2, (y1-y0)/2)}}}.Scale(2, x0, y0)
+					ring = in.Polys[0][0]
+				}
+				guest = S{Kind: gk, Polys: []shapes.Poly{{ring}}}
+			}
+			if shapes.InGP(host, guest) && shapes.AllInside(guest, host) &&
+				(shapes.BoundariesMeet(host, guest) || !shapes.AllOutside(host, guest)) {
+				if hk == "MPG" && r.Bool() {
+					// a second member of the host, away from everything
+					w := int64(2 * r.Range(1, 3))
+					host.Polys = append(host.Polys, shapes.Poly{shapes.RectRing(mx.X+2, mn.Y, mx.X+2+w, mn.Y+w)})
+				}
+				dx, dy := int64(r.Range(-6, 6)), int64(r.Range(-6, 6))
+				host, guest = host.Translate(dx, dy), guest.Translate(dx, dy)
+				if hostIsA {
+					return host, guest, true
+				}
+				return guest, host, true
+			}
+		}
+	}
+	return S{}, S{}, false
+}
 
 func genPair(r *vproto.Rng, ka, kb string, class int) (S, S) {
+	if class == 6 {
+		if a, b, ok := genVertsInside(r, ka, kb); ok {
+			return a, b
+		}
+		class = 0
+	}
 	if class == 5 {
 		for try := 0; try < 30; try++ {
 			w, h := int64(r.Range(4, 14)), int64(r.Range(4, 14))
@@ -225,7 +312,24 @@ func corpus() [][2]geom.Polygonal {
 		{sq(0, 0, 4, 4), geom.Polygon{{}, {{X: 1, Y: 1}, {X: 3, Y: 1}, {X: 2, Y: 3}}}},
 		{geom.Polygon{{{X: 0, Y: 0}, {X: 4, Y: 0}, {X: 4, Y: 4}, {X: 0, Y: 4}}, {{X: 1, Y: 1}, {X: 3, Y: 1}, {X: 3, Y: 3}, {X: 1, Y: 3}}},
 			geom.Polygon{{{X: 2, Y: 2}, {X: 6, Y: 2.5}, {X: 2.5, Y: 6}}}}, // unclosed rings, hole
+		// every vertex of the argument in the solid part of the receiver, the argument not a subset:
+		// it surrounds the receiver's hole / bridges the notch of a U (seeded C01-f2)
+		{geom.Polygon{sq(0, 0, 10, 10)[0], sq(4, 4, 6, 6)[0]}, sq(2, 2, 8, 8)},
+		{geom.Polygon{sq(0, 0, 10, 10)[0], sq(4, 4, 6, 6)[0]}, sq(1, 1, 3, 3)}, // control: really nested
+		{uShape(), sq(1, 5, 9, 8)},
+		{geom.MultiPolygon{uShape()}, sq(1, 5, 9, 8)},
+		{uShape(), geom.MultiPolygon{sq(1, 5, 9, 8)}},
+		{uShape(), bx(1, 5, 9, 8)},
+		{sq(1, 5, 9, 8), uShape()},
+		{bx(2, 2, 8, 8), geom.Polygon{sq(0, 0, 10, 10)[0], sq(4, 4, 6, 6)[0]}},
+		{geom.Polygon{sq(0, 0, 10, 10)[0], sq(4, 4, 6, 6)[0]}, geom.Polygon{sq(2, 2, 8, 8)[0], sq(4.5, 4.5, 5.5, 5.5)[0]}},
 	}
+}
+
+// uShape: a U whose notch is 3 < x < 7, y > 3
+func uShape() geom.Polygon {
+	return geom.Polygon{{{X: 0, Y: 0}, {X: 10, Y: 0}, {X: 10, Y: 10}, {X: 7, Y: 10}, {X: 7, Y: 3},
+		{X: 3, Y: 3}, {X: 3, Y: 10}, {X: 0, Y: 10}, {X: 0, Y: 0}}}
 }
 
 var opNames = []string{"I", "U", "D", "X"}
@@ -414,6 +518,75 @@ func area(p geom.Polygonal) float64 {
 	return p.Area()
 }
 
+// withinProbe asks the LIBRARY whether points lie in a result ("Point.Within on results" is one of the
+// property's observation points): two points beside the midpoint of every edge of the result and of
+// both operands and the centroid of the first three vertices of every result ring (thinned to at
+// most probeCap points), each followed by the answer of geom.Point.Within(result): 0 Outside,
+// 1 Inside, 2 OnEdge. The judge compares the answers with the truth table of the operation at the
+// points that keep a clear margin from every input edge. Format: ` pw <n> (<xbits> <ybits> <answer>)*`.
+const probeCap = 96
+
+func withinProbe(res, a, b geom.Polygonal) string {
+	if res == nil {
+		return ""
+	}
+	if bb, ok := res.(*geom.Bounds); ok && bb == nil {
+		return ""
+	}
+	var pts []geom.Point
+	side := func(g geom.Polygonal, centroids bool) {
+		if g == nil {
+			return
+		}
+		if bb, ok := g.(*geom.Bounds); ok && bb == nil {
+			return
+		}
+		for _, pg := range g.Polygons() {
+			for _, ring := range pg {
+				n := len(ring)
+				if centroids && n >= 3 {
+					pts = append(pts, geom.Point{X: (ring[0].X + ring[1].X + ring[2].X) / 3, Y: (ring[0].Y + ring[1].Y + ring[2].Y) / 3})
+				}
+				for i := 0; i < n; i++ {
+					p, q := ring[i], ring[(i+1)%n]
+					if p == q {
+						continue
+					}
+					mx, my := (p.X+q.X)/2, (p.Y+q.Y)/2
+					nx, ny := (q.Y-p.Y)/16, (p.X-q.X)/16
+					pts = append(pts, geom.Point{X: mx + nx, Y: my + ny}, geom.Point{X: mx - nx, Y: my - ny})
+				}
+			}
+		}
+	}
+	side(res, true)
+	nres := len(pts)
+	side(a, false)
+	side(b, false)
+	// thin: the result's points first (evenly spread over ALL its rings), then the operands'
+	pick := func(l []geom.Point, cap int) []geom.Point {
+		if len(l) <= cap {
+			return l
+		}
+		k := (len(l) + cap - 1) / cap
+		var o []geom.Point
+		for i := 0; i < len(l); i += k {
+			o = append(o, l[i])
+		}
+		return o
+	}
+	sel := append(pick(pts[:nres:nres], probeCap*2/3), pick(pts[nres:], probeCap/3)...)
+	var sb strings.Builder
+	fmt.Fprintf(&sb, " pw %d", len(sel))
+	for _, p := range sel {
+		if math.IsNaN(p.X) || math.IsNaN(p.Y) || math.IsInf(p.X, 0) || math.IsInf(p.Y, 0) {
+			p = geom.Point{}
+		}
+		fmt.Fprintf(&sb, " %s %s %d", vproto.F2H(p.X), vproto.F2H(p.Y), int(p.Within(res)))
+	}
+	return sb.String()
+}
+
 func toks2(a, b geom.Polygonal) string { return vproto.GeomToks(a) + "|" + vproto.GeomToks(b) }
 
 func impl() {
@@ -433,6 +606,7 @@ func impl() {
 				var ha, hb geom.Polygonal
 				var results []geom.Polygonal
 				var same []bool
+				var opnds [][2]geom.Polygonal
 				for {
 					a, _ := p.Geom().(geom.Polygonal)
 					if p.Next() != "|" {
@@ -451,6 +625,7 @@ func impl() {
 					// change with the next in-place overwrite: freeze it now
 					results = append(results, freeze(res))
 					same = append(same, ok)
+					opnds = append(opnds, [2]geom.Polygonal{freeze(ha), freeze(hb)})
 					if p.Done() {
 						break
 					}
@@ -466,7 +641,8 @@ func impl() {
 					if !same[i] {
 						sb.WriteString("mutated")
 					} else {
-						sb.WriteString("ok " + vproto.GeomToks(r))
+						// the library is asked about the kept results only now, after all the calls
+						sb.WriteString("ok " + vproto.GeomToks(r) + withinProbe(r, opnds[i][0], opnds[i][1]))
 					}
 				}
 				res = sb.String()
@@ -479,6 +655,11 @@ func impl() {
 			b, _ := p.Geom().(geom.Polygonal)
 			if kind == "cc" {
 				res = concurrent(a, op, b)
+				if strings.HasPrefix(res, "ok ") {
+					if g, ok := vproto.NewParser(res[3:]).Geom().(geom.Polygonal); ok {
+						res += withinProbe(g, a, b)
+					}
+				}
 				return
 			}
 			a, b = shapes.Flat(a), shapes.Flat(b)
@@ -489,7 +670,7 @@ func impl() {
 					res = "mutated"
 					return
 				}
-				res = "ok " + vproto.GeomToks(r)
+				res = "ok " + vproto.GeomToks(r) + withinProbe(r, a, b)
 				return
 			}
 			var sb strings.Builder
@@ -610,6 +791,14 @@ func main() {
 		gen(seed, tier)
 	case "impl":
 		impl()
+	case "extract":
+		repo := "/repo"
+		for i, a := range os.Args {
+			if a == "--repo" && i+1 < len(os.Args) {
+				repo = os.Args[i+1]
+			}
+		}
+		os.Exit(extract(repo))
 	default:
 		os.Exit(2)
 	}
